@@ -650,6 +650,7 @@ func vspecPublishOK(src []byte) bool {
 //@        && (vspecQoSOf(src[0]) != 0 ==> sameslice(m.packetID, src[vspecH(src)+2+len(m.topic):vspecH(src)+2+len(m.topic)+2]) && sameslice(m.payload, src[vspecH(src)+2+len(m.topic)+2:n]))
 //@   ensures[C03:clean] err == nil ==> !m.dirty && sameslice(m.dbuf, src[:n])
 //@   ensures[C03:type] err == nil ==> Type(src[0]>>4) == old(Type(m.mtypeflags[0]>>4))
+//@   ensures[C03:noid] err == nil && vspecQoSOf(src[0]) == 0 ==> sameslice(m.packetID, old(m.packetID))
 //@   modifies m.remlen, m.mtypeflags, m.dbuf, m.dirty, m.packetID, m.topic, m.payload
 
 //@ func nextPacketID
@@ -681,7 +682,7 @@ func vspecPublishOK(src []byte) bool {
 //@        && (vspecQoSOf(m.mtypeflags[0]) != 0 ==> len(m.packetID) == 2 && eqbytes(dst[n-len(m.payload)-2:n-len(m.payload)], m.packetID))
 //@   ensures[C03,C12:pid] err == nil && old(m.dirty) && vspecQoSOf(m.mtypeflags[0]) != 0 ==> vspecPacketID(m.packetID) != 0
 //@   ensures[C03:keepid] old(vspecPacketID(m.packetID)) != 0 ==> vspecPacketID(m.packetID) == old(vspecPacketID(m.packetID))
-//@   ensures[C03:clean-untouched] !old(m.dirty) ==> !m.dirty && unchanged(m.packetID) && sameslice(m.packetID, old(m.packetID)) && (arr(dst) != arr(m.dbuf) ==> unchanged(m.dbuf)) && sameslice(m.dbuf, old(m.dbuf))
+//@   ensures[C03:clean-untouched] !old(m.dirty) ==> !m.dirty && m.remlen == old(m.remlen) && unchanged(m.packetID) && sameslice(m.packetID, old(m.packetID)) && (arr(dst) != arr(m.dbuf) ==> unchanged(m.dbuf)) && sameslice(m.dbuf, old(m.dbuf))
 //@   ensures[C03:accept] old(m.dirty) && len(m.topic) > 0 && vspecPublishBody(len(m.topic), len(m.payload), vspecQoSOf(m.mtypeflags[0])) <= 268435455 && len(dst) >= 5+vspecPublishBody(len(m.topic), len(m.payload), vspecQoSOf(m.mtypeflags[0])) && m.mtypeflags[0] >= 16 && m.mtypeflags[0] < 240 ==> err == nil
 //@   ensures[C03:unchanged] unchanged(m.topic) && unchanged(m.payload) && sameslice(m.topic, old(m.topic)) && sameslice(m.payload, old(m.payload)) && m.mtypeflags[0] == old(m.mtypeflags[0])
 //@   modifies elems(dst, 0, n), m.remlen, m.dirty, m.packetID, elems(m.packetID), gPacketID
@@ -1013,7 +1014,7 @@ func vspecCWM(src []byte) int { return vspecCW(src) + 2 + vspecBE16(src, vspecCW
 //@   ensures vdefFreshMsg(result, PUBCOMP)
 //@   modifies fields(result)
 //@ func NewSubackMessage
-//@   ensures vdefFreshMsg(result, SUBACK) && len(result.returnCodes) == 0
+//@   ensures vdefFreshMsg(result, SUBACK) && len(result.returnCodes) == 0 && cap(result.returnCodes) == 0
 //@   modifies fields(result)
 //@ func NewUnsubackMessage
 //@   ensures vdefFreshMsg(result, UNSUBACK)
@@ -1152,6 +1153,7 @@ func vspecCWM(src []byte) int { return vspecCW(src) + 2 + vspecBE16(src, vspecCW
 //@   ensures[C08:clone-content-dirty] err == nil && old(m.dirty) ==> cm.mtypeflags[0] == old(m.mtypeflags[0]) && eqbytes(cm.payload, m.payload) && eqbytes(cm.topic, m.topic)
 //@   ensures[lemma-clean] err == nil && !old(m.dirty) && vdefPubParsed(m) ==> len(cm.dbuf) == len(m.dbuf) && cm.dbuf[0] == m.dbuf[0] && vspecH(cm.dbuf) == vspecH(m.dbuf) && vspecBE16(cm.dbuf, vspecH(cm.dbuf)) == vspecBE16(m.dbuf, vspecH(m.dbuf)) && len(cm.topic) == len(m.topic) && len(cm.payload) == len(m.payload)
 //@   ensures[C08:clone-content-clean] err == nil && !old(m.dirty) && vdefPubParsed(m) ==> cm.mtypeflags[0] == old(m.mtypeflags[0]) && eqbytes(cm.payload, m.payload) && eqbytes(cm.topic, m.topic)
+//@   ensures[C08:clean-source-untouched] !old(m.dirty) ==> !m.dirty && m.remlen == old(m.remlen) && unchanged(m.packetID) && sameslice(m.packetID, old(m.packetID))
 //@   ensures[C08:source-untouched] unchanged(m.topic) && unchanged(m.payload) && sameslice(m.topic, old(m.topic)) && sameslice(m.payload, old(m.payload)) && m.mtypeflags[0] == old(m.mtypeflags[0]) && sameslice(m.mtypeflags, old(m.mtypeflags))
 //@   modifies m.remlen, m.dirty, m.packetID, elems(m.packetID), gPacketID, gfield(0, "encn"), gfield(0, "encarr"), gfield(0, "encoff"), gfield(0, "encAt"), fields(cm)
 
